@@ -1,7 +1,8 @@
 (* C01 — The memory map tells the truth about the hardware, end to end.
    Statements only; proofs in Proofs/HierMap.v (the maps of a hierarchy), Proofs/HierCsr.v (CSR trees),
    Proofs/HierWb.v (the Wishbone machine), Proofs/HierWb2.v (maps of a Wishbone hierarchy), HierWb3.v (from the
-   root map's windows to the root decoder's selection), HierWb4.v (reach_iff_decode through SRAMs and bridges).
+   root map's windows to the root decoder's selection), HierWb4.v (reach_iff_decode through SRAMs and bridges),
+   HierCycle1-6.v (rung 3: held transfers on the cycle-exact Wishbone machine).
 
    Reading guide (Model/Hierarchy.v).  A hierarchy is syntax: `csrnode` = csr.Multiplexer over
    registers (with the add_resource()/align_to() calls made on its map) | csr.Decoder over csrnodes
@@ -18,8 +19,11 @@
 From Coq Require Import ZArith List Bool Lia.
 From Soc Require Import Lib.Res Lib.Bits Model.MemoryMap Model.Hierarchy Model.MuxSpec
   Proofs.LookupWf Proofs.HierMap Proofs.HierCsr Proofs.HierInert Proofs.HierWf Proofs.HierWb
-  Proofs.HierWb2 Proofs.HierWb3 Proofs.HierWb4.
-From Soc Require Model.CsrDecoder Model.Mux Model.WbDecoder Proofs.WbDecoder.
+  Proofs.HierWb2 Proofs.HierWb3 Proofs.HierWb4
+  Proofs.CsrTreeFlat Proofs.CsrTreeRegs
+  Proofs.HierCycle1 Proofs.HierCycle2 Proofs.HierCycle3 Proofs.HierCycle4 Proofs.HierCycle5 Proofs.HierCycle6.
+From Soc Require Model.CsrDecoder Model.Mux Model.WbDecoder Proofs.WbDecoder
+  Model.Sram Proofs.Sram Model.WbCsrBridge Proofs.WbCsrBridge.
 Import ListNotations.
 Open Scope Z_scope.
 
@@ -121,10 +125,8 @@ Print Assumptions C01_csr_hw_wellformed.
      - outside `wb_dom`: sparse windows under gbits > 0 (one subordinate word then occupies a whole root word
        while the root map gives it one granule address; `wreach` is not defined for them and the generator does
        not make them), dense windows between different granularities (ratio > 1);
-     - the cycle-exact counterpart of reach (which leaf is strobed in which cycle of a Wishbone transfer through
-       a bridge): C07 request relay + C10 transfer + C15 are proved per component, their composition over the
-       hierarchy machine `wb_run` is proved only for the unselected case (the theorems at the end of this
-       section). *)
+     - (the cycle-exact counterpart of reach IS proved now: rung 3 at the end of this file; what remains open
+       there is listed in its 'Still not proved' note.) *)
 
 (* reach_iff_decode: a granule address selects granule / chunk `off` of resource `id` in the hardware iff the
    root map decodes the address to `id` and reports it `off` addresses above that resource's start *)
@@ -389,3 +391,486 @@ Proof.
     exists m, h. vm_compute in Em. injection Em as <-. vm_compute in Eh. injection Eh as <-.
     split; [reflexivity|]. split; [reflexivity|]. vm_compute. split; reflexivity.
 Qed.
+
+(* ---- rung 3: held Wishbone transfers on the cycle-exact machine `wb_run` ----
+
+   Reading guide (Proofs/HierCycle1.v, HierCycle3.v).  All statements are about `wb_run h (map winit (wh_subs h)) tr`:
+   the hierarchy machine from reset on an arbitrary root trace tr (per cycle: the root request and element.r_data
+   of every register).
+     wb_after h ss tr        the registered state after tr (cycle t of wb_run = wb_out of the state after t cycles);
+     sub_req c k s q         what the root decoder relays to subordinate k when the root carries q = C07's request
+                             relay (Model/WbDecoder.v's sub_out): cyc = "k is selected" & cyc, the word address cut
+                             to the subordinate's width, sel / dat_w cut to its widths, we / stb unchanged;
+     w_after hh s l          subordinate hh's own machine (Model/Sram.v, or Model/WbCsrBridge.v in front of the CSR
+                             tree machine of rung 1) run alone on the relayed requests l;
+     held q rvs              the request q presented in |rvs| consecutive cycles (register values rvs);
+     ack_low / sub_idle      no acknowledge pending / additionally, for a bridge, sequencer state 0 (C10's idle);
+     br_tr, br_ctr           for a bridge subordinate: the input trace of the bridge (nat -> inp, as C10 wants it)
+                             and the CSR-bus trace below it (list of (bus, register values), as C06 wants it),
+                             both from reset;
+     xf_addr bc so j         trunc(csr_aw)(relayed word * ratio + j): the CSR address of granule j;
+     xf_rstb / xf_wstb       the strobes a register reported at [i_start, i_end) of the CSR tree's root map gets
+                             in cycle t0+j: r_stb iff j < R, granule j selected, a read, and granule j is the
+                             register's FIRST address; w_stb iff 1 <= j <= R, granule j-1 selected, a write, and
+                             granule j-1 is its LAST address (w_stb is registered in the multiplexer: C05).
+   Premise "no acknowledge pending at t0" (Forall ack_low of the state after `pre`) is observable: it is
+   equivalent to the root's ack being low in cycle t0 (C01_wb_no_ack_pending_observable); it holds at reset and
+   again after every transfer of T1/T2 (their last conjuncts), so the theorems chain over back-to-back transfers.
+
+   PROVED: the projection of wb_run onto one subordinate (C01_wb_projection; for a bridge, C01_wb_bridge_projection:
+   the bridge machine of C10 in front of the CSR tree machine of C06, fed with the relayed request), T1
+   (C01_wb_sram_transfer), T2 at CSR-bus level (C01_wb_bridge_transfer) and at register level for every register
+   of the tree in terms of the tree's root addresses (C01_wb_bridge_transfer_strobes; a bridge over a single
+   multiplexer is the tree of depth 0), the atomic read and write through bridge and tree
+   (C01_wb_bridge_read_atomic, C01_wb_bridge_write_atomic), T3's link from the ROOT map to the premises of T1/T2
+   (C01_wb_decode_selects, _sram, _bridge).
+
+   Still not proved:
+     - T3 for registers behind a bridge is stated with the register's range in the map of the CSR TREE below the
+       bridge (lc); C01_wb_decode_selects_bridge gives the translation of addresses (CSR address = ga - window
+       start, and the tree reaches (i_res i, ga - i_start i) there), not the translation of whole `info` records
+       of the ROOT map into those of the tree's map.
+     - T2 is stated for a request held THROUGH its acknowledge cycle ([t0, t0+R+1], what the Wishbone protocol
+       demands); C10_transfer needs it only on [t0, t0+R] ("whatever the initiator does in the acknowledge
+       cycle"): the bridge-side clauses (CSR accesses, ack, dat_r) would survive a different request at t0+R+1,
+       the frame clauses about the OTHER subordinates in that cycle would not (a new request may select one).
+     - the data clauses (C01_wb_bridge_read_atomic / _write_atomic) cover a register lying entirely inside the
+       addressed word with all its granules selected; registers spanning several words (several transfers) are
+       left to C06_tree_read_atomic / C06_tree_write_atomic on the trace `br_ctr` that C01_wb_bridge_projection
+       provides.
+     - w_stb below the OTHER bridges in cycle t0 itself is not claimed (it is decided by cycle t0-1: an aborted
+       transfer of another bridge may still deliver a registered w_stb at t0).
+     - requests that change or drop cyc in the middle of a bridge transfer, and sparse / ratio > 1 windows outside
+       wb_dom (as in rung 2). *)
+
+(* cycle t of the machine is the output function applied to the state after t cycles *)
+Theorem C01_wb_run_is_state_output : forall h tr ss t q rv, nth_error tr t = Some (q, rv) ->
+  nth_error (wb_run h ss tr) t = Some (wb_out h (wb_after h ss (firstn t tr)) q rv).
+Proof. intros h tr ss. exact (wb_run_nth h tr ss). Qed.
+Print Assumptions C01_wb_run_is_state_output.
+
+(* (a) PROJECTION.  Subordinate k of the hierarchy machine is its own machine, run alone on the request the root
+   decoder relays to it (a function of the ROOT request only); from ANY state of the right length, any trace. *)
+Theorem C01_wb_projection : forall h, length (WbDecoder.c_subs (wh_cfg h)) = length (wh_subs h) ->
+  forall tr ss k hh s sk, length ss = length (wh_subs h) ->
+  nth_error (wh_subs h) k = Some hh -> nth_error (WbDecoder.c_subs (wh_cfg h)) k = Some s -> nth_error ss k = Some sk ->
+  nth_error (wb_after h ss tr) k = Some (w_after hh sk (sub_trace (wh_cfg h) k s tr)).
+Proof. exact wb_after_proj. Qed.
+Print Assumptions C01_wb_projection.
+
+(* C07's request relay, on the hierarchy: what subordinate k is sent *)
+Theorem C01_wb_relayed_request : forall c k s q,
+  WbDecoder.o_cyc (sub_req c k s q) = WbDecoder.is_sel (WbDecoder.selected c (WbDecoder.adr q)) k && WbDecoder.cyc q /\
+  WbDecoder.o_stb (sub_req c k s q) = WbDecoder.stb q /\ WbDecoder.o_we (sub_req c k s q) = WbDecoder.we q /\
+  WbDecoder.o_adr (sub_req c k s q) =
+    trunc (WbDecoder.s_aw s) (Z.shiftl (WbDecoder.adr q) (Z.log2 (WbDecoder.w_ratio (WbDecoder.s_win s)))) /\
+  WbDecoder.o_dat_w (sub_req c k s q) = trunc (WbDecoder.s_dw s) (WbDecoder.dat_w q) /\
+  WbDecoder.o_sel (sub_req c k s q) =
+    trunc (WbDecoder.s_dw s / WbDecoder.s_g s)
+          (fanout (WbDecoder.c_dw c / WbDecoder.c_g c) (WbDecoder.w_ratio (WbDecoder.s_win s)) (WbDecoder.sel q)).
+Proof. intros c k s q. repeat split; reflexivity. Qed.
+Print Assumptions C01_wb_relayed_request.
+
+(* For a bridge subordinate, from reset: its state after t cycles is C10's bridge machine on the trace br_tr
+   and rung 1's CSR tree machine on the trace br_ctr; in cycle t the bridge is fed the relayed request and, as
+   csr r_data, the tree's r_data; the CSR bus carries the bridge's outputs; the element ports below the bridge
+   are those csr_run shows on br_ctr.  (The composite of Model/BridgeMuxSpec.v generalised from one multiplexer
+   to a CSR tree, and embedded in the hierarchy.) *)
+Theorem C01_wb_bridge_projection : forall h k bc ch s tr,
+  length (WbDecoder.c_subs (wh_cfg h)) = length (wh_subs h) ->
+  nth_error (wh_subs h) k = Some (HBridge bc ch) -> nth_error (WbDecoder.c_subs (wh_cfg h)) k = Some s ->
+  let btr := br_tr h k bc ch s tr in
+  let ctr := br_ctr h k bc ch s tr in
+  (forall t, (t <= length tr)%nat ->
+     nth_error (wb_after h (map winit (wh_subs h)) (firstn t tr)) k =
+     Some (SBridge (WbCsrBridge.state_at bc btr t) (c_after ch (cinit ch) (firstn t ctr)))) /\
+  (forall t q rv, nth_error tr t = Some (q, rv) ->
+     btr t = bridge_inp ch (c_after ch (cinit ch) (firstn t ctr)) (sub_req (wh_cfg h) k s q) /\
+     nth_error ctr t = Some (csr_bus_of (WbCsrBridge.out_at bc btr t), rv) /\
+     nth_error (csr_run ch (cinit ch) ctr) t =
+       Some (c_rdata ch (c_after ch (cinit ch) (firstn t ctr)),
+             w_leaves (HBridge bc ch) (SBridge (WbCsrBridge.state_at bc btr t) (c_after ch (cinit ch) (firstn t ctr)))
+                      rv (sub_req (wh_cfg h) k s q))).
+Proof.
+  intros h k bc ch s tr Hlen Hh Hs btr ctr. split.
+  - intros t Ht. exact (proj_state h k bc ch s tr Hlen Hh Hs t Ht).
+  - intros t q rv Hq. destruct (proj_cycle h k bc ch s tr Hlen t q rv Hq) as [E1 E2].
+    split; [exact E1|]. split; [exact E2|]. exact (proj_leaves h k bc ch s tr Hlen t q rv Hq).
+Qed.
+Print Assumptions C01_wb_bridge_projection.
+
+(* the premise "no acknowledge pending" is observable at the root *)
+Theorem C01_wb_no_ack_pending_observable : forall h ss q rv, length (WbDecoder.c_subs (wh_cfg h)) = length ss ->
+  (wo_ack (wb_out h ss q rv) = false <-> Forall ack_low ss).
+Proof.
+  intros h ss q rv Hl. split; [exact (root_ack_low h ss q rv Hl)|]. intros H. exact (acks_low_no_ack h ss q H).
+Qed.
+Print Assumptions C01_wb_no_ack_pending_observable.
+
+(* reset state: nothing pending *)
+Theorem C01_wb_reset_idle : forall h, wbhw_wf h -> Forall ack_low (wb_after h (map winit (wh_subs h)) []).
+Proof. intros h H. exact (winit_all_low h H). Qed.
+Print Assumptions C01_wb_reset_idle.
+
+(* (b) T1: SRAM leaf.  pre = any history from reset after which no acknowledge is pending; t0 = |pre|; the request
+   q (cyc & stb) is presented in cycles t0 and t0+1 and selects subordinate k, the SRAM `id`; (q2, rv2) is whatever
+   comes next.  so = the relayed request.  Then:
+   - ack at the root: 0 at t0, 1 at t0+1, 0 at t0+2;
+   - the SRAM ports (id, cyc, rows): PA ++ (id, cyc = 1, rows) :: PB in both cycles, cyc = 0 on every other SRAM,
+     and PA, PB (ids and contents of the other SRAMs) are the same lists in both cycles;
+   - the rows r0 at t0 and r1 at t0+1 of the selected SRAM: same shape; granule kk of row a is the granule of the
+     relayed dat_w iff the SRAM is writable, the request is a write, a = the relayed address cut to the SRAM's
+     address width and relayed sel bit kk is set; every other granule of every row is unchanged;
+     at t0+2 every SRAM holds what it held at t0+1 (one write);
+   - a read returns at t0+1 row a of the memory AS IT WAS at t0;
+   - no register below any bridge sees r_stb at t0 or t0+1, nor w_stb at t0+1 or t0+2 (w_stb at t0 is the
+     business of cycle t0-1);
+   - no acknowledge is pending after the two cycles. *)
+Theorem C01_wb_sram_transfer : forall h, wbhw_wf h -> forall pre q rv0 rv1 q2 rv2 post k id g rows0 s,
+  let tr := pre ++ (q, rv0) :: (q, rv1) :: (q2, rv2) :: post in
+  let t0 := length pre in
+  Forall ack_low (wb_after h (map winit (wh_subs h)) pre) ->
+  WbDecoder.cyc q = true -> WbDecoder.stb q = true -> WbDecoder.selected (wh_cfg h) (WbDecoder.adr q) = Some k ->
+  nth_error (wh_subs h) k = Some (HSram id g rows0) -> nth_error (WbDecoder.c_subs (wh_cfg h)) k = Some s ->
+  let so := sub_req (wh_cfg h) k s q in
+  exists o0 o1 o2 PA PB r0 r1,
+    nth_error (wb_run h (map winit (wh_subs h)) tr) t0 = Some o0 /\
+    nth_error (wb_run h (map winit (wh_subs h)) tr) (t0 + 1) = Some o1 /\
+    nth_error (wb_run h (map winit (wh_subs h)) tr) (t0 + 2) = Some o2 /\
+    wo_ack o0 = false /\ wo_ack o1 = true /\ wo_ack o2 = false /\
+    wo_srams o0 = PA ++ (id, true, r0) :: PB /\ wo_srams o1 = PA ++ (id, true, r1) :: PB /\
+    (forall x, In x PA \/ In x PB -> snd (fst x) = false) /\
+    map (fun x : Z * bool * list Z => snd x) (wo_srams o2) = map (fun x : Z * bool * list Z => snd x) (wo_srams o1) /\
+    Proofs.Sram.rows_ok g r0 /\ length r1 = length r0 /\
+    (forall a, 0 <= a < Sram.g_depth g -> forall kk, 0 <= kk < Sram.nsel g ->
+       slice (kk * Sram.g_gran g) (Sram.g_gran g) (Proofs.Sram.row r1 a) =
+       if Sram.g_wr g && WbDecoder.we q && (trunc (Sram.g_aw g) (WbDecoder.o_adr so) =? a) &&
+          Z.testbit (WbDecoder.o_sel so) kk
+       then slice (kk * Sram.g_gran g) (Sram.g_gran g) (WbDecoder.o_dat_w so)
+       else slice (kk * Sram.g_gran g) (Sram.g_gran g) (Proofs.Sram.row r0 a)) /\
+    (WbDecoder.we q = false ->
+       wo_dat_r o1 = trunc (WbDecoder.c_dw (wh_cfg h)) (Proofs.Sram.row r0 (trunc (Sram.g_aw g) (WbDecoder.o_adr so)))) /\
+    (forall lo, In lo (wo_leaves o0) -> lo_rstb lo = false) /\
+    (forall lo, In lo (wo_leaves o1) -> lo_rstb lo = false /\ lo_wstb lo = false) /\
+    (forall lo, In lo (wo_leaves o2) -> lo_wstb lo = false) /\
+    Forall ack_low (wb_after h (map winit (wh_subs h)) (pre ++ [(q, rv0); (q, rv1)])).
+Proof. exact sram_transfer. Qed.
+Print Assumptions C01_wb_sram_transfer.
+
+(* (c, d) T2: bridge leaf, at the CSR bus below the bridge.  R = ratio of the bridge; the request q is held on
+   [t0, t0+R+1] (through its acknowledge cycle, as the Wishbone protocol demands) and selects subordinate k, a
+   bridge that is idle at t0, no acknowledge pending anywhere.  ctr = the CSR-bus trace below the bridge.  Then:
+   1. every CSR address fits the CSR address width; ctr has one entry per cycle;
+   2. granule i < R: in cycle t0+i the CSR bus carries addr = relayed word * R + i (cut to the CSR address width),
+      r_stb = relayed sel_i & ~we, w_stb = relayed sel_i & we, w_data = lane i of the relayed dat_w: exactly one
+      access per selected granule, ascending, none for unselected granules;
+   3. no CSR strobe at t0+R, t0+R+1, nor in the cycle before t0;
+   4. at the root, in every cycle t0+j, j <= R+1: ack = (j = R+1); every SRAM port shows cyc = 0 and the same
+      contents P throughout; the element ports are L1 ++ los ++ L2 where los are the ports that rung 1's machine
+      csr_run shows in that cycle on ctr (so every C06 theorem applies to them), and L1, L2 (below the other
+      bridges) carry no r_stb, and no w_stb from t0+1 on; in the acknowledge cycle lane i of dat_r is the CSR
+      tree's r_data of cycle t0+i+1 (the cycle after granule i's read strobe), for every lane that fits the root's
+      data width;
+   5. afterwards no acknowledge is pending and the bridge is idle again. *)
+Theorem C01_wb_bridge_transfer : forall h k bc ch s, wbhw_wf h -> Proofs.WbCsrBridge.wf bc ->
+  nth_error (wh_subs h) k = Some (HBridge bc ch) -> nth_error (WbDecoder.c_subs (wh_cfg h)) k = Some s ->
+  forall pre q rvs post, length rvs = (Proofs.WbCsrBridge.nratio bc + 2)%nat ->
+  WbDecoder.cyc q = true -> WbDecoder.stb q = true -> WbDecoder.selected (wh_cfg h) (WbDecoder.adr q) = Some k ->
+  Forall ack_low (wb_after h (map winit (wh_subs h)) pre) ->
+  (forall sk, nth_error (wb_after h (map winit (wh_subs h)) pre) k = Some sk -> sub_idle sk) ->
+  let R := Proofs.WbCsrBridge.nratio bc in
+  let tr := pre ++ held q rvs ++ post in
+  let t0 := length pre in
+  let so := sub_req (wh_cfg h) k s q in
+  let ctr := br_ctr h k bc ch s tr in
+  in_range (WbCsrBridge.c_caw bc) ctr /\ length ctr = length tr /\
+  (forall i, (i < R)%nat ->
+     nth_error ctr (t0 + i)%nat =
+     Some ({| CsrDecoder.addr := trunc (WbCsrBridge.c_caw bc) (WbDecoder.o_adr so * WbCsrBridge.ratio bc + Z.of_nat i);
+              CsrDecoder.r_stb := Z.testbit (WbDecoder.o_sel so) (Z.of_nat i) && negb (WbDecoder.we q);
+              CsrDecoder.w_stb := Z.testbit (WbDecoder.o_sel so) (Z.of_nat i) && WbDecoder.we q;
+              CsrDecoder.w_data := WbCsrBridge.lane bc (Z.of_nat i) (WbDecoder.o_dat_w so) |}, nth i rvs [])) /\
+  (forall j, (j = R \/ j = R + 1)%nat ->
+     exists b, nth_error ctr (t0 + j)%nat = Some (b, nth j rvs []) /\
+               CsrDecoder.r_stb b = false /\ CsrDecoder.w_stb b = false) /\
+  (forall t' b rv, t0 = S t' -> nth_error ctr t' = Some (b, rv) ->
+     CsrDecoder.r_stb b = false /\ CsrDecoder.w_stb b = false) /\
+  (exists P, (forall x, In x P -> snd (fst x) = false) /\
+     forall j, (j < R + 2)%nat ->
+     exists o rd los L1 L2,
+       nth_error (wb_run h (map winit (wh_subs h)) tr) (t0 + j)%nat = Some o /\
+       nth_error (csr_run ch (cinit ch) ctr) (t0 + j)%nat = Some (rd, los) /\
+       wo_ack o = (j =? R + 1)%nat /\
+       wo_srams o = P /\
+       wo_leaves o = L1 ++ los ++ L2 /\
+       (forall lo, In lo L1 \/ In lo L2 -> lo_rstb lo = false /\ ((1 <= j)%nat -> lo_wstb lo = false)) /\
+       (j = (R + 1)%nat -> forall i, (i < R)%nat ->
+          (Z.of_nat i + 1) * WbCsrBridge.c_g bc <= WbDecoder.c_dw (wh_cfg h) ->
+          WbCsrBridge.lane bc (Z.of_nat i) (wo_dat_r o) =
+          trunc (WbCsrBridge.c_g bc) (rdata_after ch ctr (t0 + i + 1)))) /\
+  Forall ack_low (wb_after h (map winit (wh_subs h)) (pre ++ held q rvs)) /\
+  (forall sk, nth_error (wb_after h (map winit (wh_subs h)) (pre ++ held q rvs)) k = Some sk -> sub_idle sk).
+Proof. exact bridge_transfer. Qed.
+Print Assumptions C01_wb_bridge_transfer.
+
+(* (d) T2 at the registers, for a bridge over ANY CSR tree c of rung 1's domain (a single multiplexer is the tree
+   of depth 0), lc = all_resources() of the tree's own root map.  Same premises.  In every cycle t0+j, j <= R+1:
+   the element ports are L1 ++ los ++ L2; below the other bridges (L1, L2) no r_stb, and no w_stb from t0+1 on;
+   below this bridge every port belongs to a register i reported by the tree's map, and every reported register
+   has its port, with   r_stb = readable & xf_rstb   and   w_stb = writable & xf_wstb:
+   a register is read-strobed exactly in the cycle t0+j in which granule j is its first address (selected, read),
+   write-strobed exactly in the cycle after the granule that is its last address was written (selected, write),
+   and no other register of any subordinate is strobed; no SRAM sees cyc; ack exactly at t0+R+1. *)
+Theorem C01_wb_bridge_transfer_strobes : forall h k bc ch s c mc lc, wbhw_wf h -> Proofs.WbCsrBridge.wf bc ->
+  nth_error (wh_subs h) k = Some (HBridge bc ch) -> nth_error (WbDecoder.c_subs (wh_cfg h)) k = Some s ->
+  csr_dom c -> csr_widths c -> csr_map c = Ok mc -> csr_hw c = Ok ch -> all_resources mc = Ok lc ->
+  WbCsrBridge.c_caw bc = csr_aw c ->
+  forall pre q rvs post, length rvs = (Proofs.WbCsrBridge.nratio bc + 2)%nat ->
+  WbDecoder.cyc q = true -> WbDecoder.stb q = true -> WbDecoder.selected (wh_cfg h) (WbDecoder.adr q) = Some k ->
+  Forall ack_low (wb_after h (map winit (wh_subs h)) pre) ->
+  (forall sk, nth_error (wb_after h (map winit (wh_subs h)) pre) k = Some sk -> sub_idle sk) ->
+  let R := Proofs.WbCsrBridge.nratio bc in
+  let tr := pre ++ held q rvs ++ post in
+  let t0 := length pre in
+  let so := sub_req (wh_cfg h) k s q in
+  forall j, (j < R + 2)%nat ->
+  exists o L1 los L2,
+    nth_error (wb_run h (map winit (wh_subs h)) tr) (t0 + j)%nat = Some o /\
+    wo_ack o = (j =? R + 1)%nat /\
+    (forall x, In x (wo_srams o) -> snd (fst x) = false) /\
+    wo_leaves o = L1 ++ los ++ L2 /\
+    (forall lo, In lo L1 \/ In lo L2 -> lo_rstb lo = false /\ ((1 <= j)%nat -> lo_wstb lo = false)) /\
+    (forall lo, In lo los -> exists i L kk r, In i lc /\ reg_at (csr_aw c) ch i L kk r /\ lo_id lo = i_res i /\
+       lo_rstb lo = Mux.r_rd r && xf_rstb bc so j i /\ lo_wstb lo = Mux.r_wr r && xf_wstb bc so j i) /\
+    (forall i, In i lc -> exists L kk r lo, reg_at (csr_aw c) ch i L kk r /\ In lo los /\ lo_id lo = i_res i /\
+       lo_rstb lo = Mux.r_rd r && xf_rstb bc so j i /\ lo_wstb lo = Mux.r_wr r && xf_wstb bc so j i).
+Proof. exact bridge_transfer_strobes. Qed.
+Print Assumptions C01_wb_bridge_transfer_strobes.
+
+(* T2, read data (C04's snapshot semantics through bridge and tree).  Same premises, a READ; the addressed word
+   lies inside the CSR address space (C01_wb_decode_selects_bridge derives it from the map); i = a readable
+   register reported by the tree's map lying entirely inside the addressed word [A, A + R), all of whose granules
+   are selected (the other select bits are arbitrary); gf = index of its first granule within the word.  Then in
+   the acknowledge cycle t0+R+1, for every granule gn of the register, lane gn of the root's dat_r is chunk
+   gn - gf of the ONE value the register presented in cycle t0+gf (the cycle of its r_stb), whatever it presents
+   in any other cycle (`Mux.word dw width j v` = bits [j*dw, min(width, (j+1)*dw)) of v; the outer trunc is to the
+   bridge's granule = the CSR data width, C01_wb_constructed_bridge, and does nothing to a chunk). *)
+Theorem C01_wb_bridge_read_atomic : forall h k bc ch s c mc lc, wbhw_wf h -> Proofs.WbCsrBridge.wf bc ->
+  nth_error (wh_subs h) k = Some (HBridge bc ch) -> nth_error (WbDecoder.c_subs (wh_cfg h)) k = Some s ->
+  csr_dom c -> csr_widths c -> csr_map c = Ok mc -> csr_hw c = Ok ch -> all_resources mc = Ok lc ->
+  WbCsrBridge.c_caw bc = csr_aw c ->
+  forall pre q rvs post, length rvs = (Proofs.WbCsrBridge.nratio bc + 2)%nat ->
+  WbDecoder.cyc q = true -> WbDecoder.stb q = true -> WbDecoder.selected (wh_cfg h) (WbDecoder.adr q) = Some k ->
+  Forall ack_low (wb_after h (map winit (wh_subs h)) pre) ->
+  (forall sk, nth_error (wb_after h (map winit (wh_subs h)) pre) k = Some sk -> sub_idle sk) ->
+  let R := Proofs.WbCsrBridge.nratio bc in
+  let tr := pre ++ held q rvs ++ post in
+  let t0 := length pre in
+  let so := sub_req (wh_cfg h) k s q in
+  let A := WbDecoder.o_adr so * WbCsrBridge.ratio bc in
+  WbDecoder.we q = false ->
+  0 <= WbDecoder.o_adr so -> (WbDecoder.o_adr so + 1) * WbCsrBridge.ratio bc <= 2 ^ WbCsrBridge.c_caw bc ->
+  forall i L kk r, In i lc -> reg_at (csr_aw c) ch i L kk r -> Mux.r_rd r = true ->
+  A <= i_start i -> i_end i <= A + WbCsrBridge.ratio bc ->
+  (forall gz, i_start i <= A + gz < i_end i -> Z.testbit (WbDecoder.o_sel so) gz = true) ->
+  let gf := Z.to_nat (i_start i - A) in
+  exists o, nth_error (wb_run h (map winit (wh_subs h)) tr) (t0 + R + 1)%nat = Some o /\ wo_ack o = true /\
+    forall gn, i_start i <= A + Z.of_nat gn < i_end i ->
+      (Z.of_nat gn + 1) * WbCsrBridge.c_g bc <= WbDecoder.c_dw (wh_cfg h) ->
+      WbCsrBridge.lane bc (Z.of_nat gn) (wo_dat_r o) =
+      trunc (WbCsrBridge.c_g bc)
+        (Mux.word (csr_dw c) (Mux.r_width r) (Z.of_nat gn - Z.of_nat gf)
+                  (trunc (Mux.r_width r) (nth (Z.to_nat (i_res i)) (nth gf rvs []) 0))).
+Proof. exact bridge_read_atomic. Qed.
+Print Assumptions C01_wb_bridge_read_atomic.
+
+(* T2, write data (C05's atomic write through bridge and tree).  Same premises, a WRITE; i = a writable register
+   reported by the tree's map lying entirely inside the addressed word, all its granules selected; gf / ge = index
+   within the word of its first granule / of the granule after its last one.  Then gf < ge <= R, and in cycle
+   t0+ge (the cycle after its last chunk was written; strictly before the acknowledge cycle t0+R+1: "write side
+   effects have taken place by the time the acknowledge is seen") the register's element port shows w_stb and,
+   as w_data, the concatenation of the relayed dat_w lanes gf .. ge-1 clipped to the register's width
+   (`assemble`, C05_assemble_is_concatenation; each lane cut to the CSR data width, which does nothing to a
+   lane of a constructed bridge). *)
+Theorem C01_wb_bridge_write_atomic : forall h k bc ch s c mc lc, wbhw_wf h -> Proofs.WbCsrBridge.wf bc ->
+  nth_error (wh_subs h) k = Some (HBridge bc ch) -> nth_error (WbDecoder.c_subs (wh_cfg h)) k = Some s ->
+  csr_dom c -> csr_widths c -> csr_map c = Ok mc -> csr_hw c = Ok ch -> all_resources mc = Ok lc ->
+  WbCsrBridge.c_caw bc = csr_aw c ->
+  forall pre q rvs post, length rvs = (Proofs.WbCsrBridge.nratio bc + 2)%nat ->
+  WbDecoder.cyc q = true -> WbDecoder.stb q = true -> WbDecoder.selected (wh_cfg h) (WbDecoder.adr q) = Some k ->
+  Forall ack_low (wb_after h (map winit (wh_subs h)) pre) ->
+  (forall sk, nth_error (wb_after h (map winit (wh_subs h)) pre) k = Some sk -> sub_idle sk) ->
+  let R := Proofs.WbCsrBridge.nratio bc in
+  let tr := pre ++ held q rvs ++ post in
+  let t0 := length pre in
+  let so := sub_req (wh_cfg h) k s q in
+  let A := WbDecoder.o_adr so * WbCsrBridge.ratio bc in
+  WbDecoder.we q = true ->
+  0 <= WbDecoder.o_adr so -> (WbDecoder.o_adr so + 1) * WbCsrBridge.ratio bc <= 2 ^ WbCsrBridge.c_caw bc ->
+  forall i L kk r, In i lc -> reg_at (csr_aw c) ch i L kk r -> Mux.r_wr r = true ->
+  A <= i_start i -> i_end i <= A + WbCsrBridge.ratio bc ->
+  (forall gz, i_start i <= A + gz < i_end i -> Z.testbit (WbDecoder.o_sel so) gz = true) ->
+  let gf := Z.to_nat (i_start i - A) in
+  let ge := Z.to_nat (i_end i - A) in
+  (gf < ge <= R)%nat /\
+  exists o lo, nth_error (wb_run h (map winit (wh_subs h)) tr) (t0 + ge)%nat = Some o /\ wo_ack o = false /\
+    In lo (wo_leaves o) /\ lo_id lo = i_res i /\ lo_wstb lo = true /\
+    lo_wdata lo = assemble (csr_dw c) (Mux.r_width r)
+                    (fun j => trunc (csr_dw c) (WbCsrBridge.lane bc (Z.of_nat gf + j) (WbDecoder.o_dat_w so)))
+                    (Z.to_nat (i_end i - i_start i)).
+Proof. exact bridge_write_atomic. Qed.
+Print Assumptions C01_wb_bridge_write_atomic.
+
+(* the bridges of a constructed hierarchy meet T2's premises on the configuration *)
+Theorem C01_wb_constructed_bridge : forall r m h j o sp n wn w g bc ch, wb_dom r -> wbroot_map r = Ok m ->
+  sub_is r m h j o sp n wn w g (HBridge bc ch) ->
+  exists dw nm c, n = BridgeNode dw nm c /\ csr_dom c /\
+    Proofs.WbCsrBridge.wf bc /\ WbCsrBridge.c_caw bc = csr_aw c /\ WbCsrBridge.c_g bc = csr_dw c /\ csr_hw c = Ok ch.
+Proof. exact sub_is_bridge. Qed.
+Print Assumptions C01_wb_constructed_bridge.
+
+(* (e) T3: the leaf identified by the ROOT MAP.  If all_resources() of the root map reports resource i at a range
+   containing the granule address ga (so decode_address(ga) = i's resource), then for the word ga / 2^gbits the
+   root decoder selects a subordinate j (the premise `selected = Some k` of T1 / T2), namely the one whose
+   window [w_start, w_start + 2^aw) of the root map contains ga, and that subordinate reaches (i_res i,
+   ga - i_start i) at the offset of ga inside its window (node_reach: an SRAM its own granule, a bridge what
+   rung 1's creach finds below it).  sub_is (Proofs/HierWb3.v) = "subordinate j is add() number j: its syntax n,
+   its window wn in the root map, its hardware hh, its entry in the decoder's configuration". *)
+Theorem C01_wb_decode_selects : forall r m h l, wb_dom r ->
+  wbroot_map r = Ok m -> wbroot_hw r = Ok h -> all_resources m = Ok l ->
+  forall ga, 0 <= ga < 2 ^ (wr_aw r + wbroot_gbits r) ->
+  forall i, In i l -> i_start i <= ga < i_end i ->
+  decode_address m ga = Some (i_res i) /\
+  exists j o sp n wn w g hh, sub_is r m h j o sp n wn w g hh /\
+    WbDecoder.selected (wh_cfg h) (ga / 2 ^ wbroot_gbits r) = Some j /\
+    w_start wn <= ga < w_start wn + 2 ^ wb_maw n /\
+    node_reach hh (ga - w_start wn) = Some (i_res i, ga - i_start i).
+Proof. exact decode_selects. Qed.
+Print Assumptions C01_wb_decode_selects.
+
+(* T3 for T1: if the selected subordinate is an SRAM, it is the reported resource, one word holds nsel = 2^gbits
+   granules, and for a request to the word of ga the row that C01_wb_sram_transfer names
+   (trunc (g_aw) (o_adr so)) is (ga - i_start i) / nsel and the lane of ga is (ga - i_start i) mod nsel:
+   a held write with sel bit `lane` changes exactly granule ga - i_start i of the resource the map reports. *)
+Theorem C01_wb_decode_selects_sram : forall r m h l, wb_dom r ->
+  wbroot_map r = Ok m -> wbroot_hw r = Ok h -> all_resources m = Ok l ->
+  forall ga, 0 <= ga < 2 ^ (wr_aw r + wbroot_gbits r) ->
+  forall i, In i l -> i_start i <= ga < i_end i ->
+  forall j id ge rows0 s, WbDecoder.selected (wh_cfg h) (ga / 2 ^ wbroot_gbits r) = Some j ->
+  nth_error (wh_subs h) j = Some (HSram id ge rows0) ->
+  nth_error (WbDecoder.c_subs (wh_cfg h)) j = Some s ->
+  forall q, WbDecoder.adr q = ga / 2 ^ wbroot_gbits r ->
+  id = i_res i /\ Sram.nsel ge = 2 ^ wbroot_gbits r /\
+  trunc (Sram.g_aw ge) (WbDecoder.o_adr (sub_req (wh_cfg h) j s q)) = (ga - i_start i) / Sram.nsel ge /\
+  ga mod 2 ^ wbroot_gbits r = (ga - i_start i) mod Sram.nsel ge.
+Proof. exact decode_selects_sram. Qed.
+Print Assumptions C01_wb_decode_selects_sram.
+
+(* T3 for T2: if the selected subordinate is a bridge, its ratio is 2^gbits, the CSR address of the granule that
+   C01_wb_bridge_transfer names (relayed word * ratio + lane, no truncation: the word lies inside the CSR address
+   space) is ga - window start, and rung 1's routing below the bridge reaches, at that CSR address, chunk
+   ga - i_start i of the register the ROOT map reports (C01_csr_reach_iff_decode then names it in the tree's
+   map). *)
+Theorem C01_wb_decode_selects_bridge : forall r m h l, wb_dom r ->
+  wbroot_map r = Ok m -> wbroot_hw r = Ok h -> all_resources m = Ok l ->
+  forall ga, 0 <= ga < 2 ^ (wr_aw r + wbroot_gbits r) ->
+  forall i, In i l -> i_start i <= ga < i_end i ->
+  forall j bc ch s, WbDecoder.selected (wh_cfg h) (ga / 2 ^ wbroot_gbits r) = Some j ->
+  nth_error (wh_subs h) j = Some (HBridge bc ch) ->
+  nth_error (WbDecoder.c_subs (wh_cfg h)) j = Some s ->
+  forall q, WbDecoder.adr q = ga / 2 ^ wbroot_gbits r ->
+  exists wn, In wn (map fst (m_wins m)) /\ w_id wn = Z.of_nat j /\
+    w_start wn <= ga < w_start wn + 2 ^ WbCsrBridge.c_caw bc /\
+    WbCsrBridge.c_r bc = wbroot_gbits r /\
+    WbDecoder.o_adr (sub_req (wh_cfg h) j s q) * WbCsrBridge.ratio bc + ga mod 2 ^ wbroot_gbits r = ga - w_start wn /\
+    0 <= WbDecoder.o_adr (sub_req (wh_cfg h) j s q) /\
+    (WbDecoder.o_adr (sub_req (wh_cfg h) j s q) + 1) * WbCsrBridge.ratio bc <= 2 ^ WbCsrBridge.c_caw bc /\
+    creach ch (ga - w_start wn) = Some (i_res i, ga - i_start i).
+Proof. exact decode_selects_bridge. Qed.
+Print Assumptions C01_wb_decode_selects_bridge.
+
+(* ---- rung 3, non-vacuity on ex_wb (16-bit root, byte granularity: SRAM `1000` at words 0-1, bridge of ratio 2 over
+   ex_mux0 at words 4-5; register 0 = 12 bits at CSR addresses 0-1 = root bytes 8-9).
+   Trace: a write of 0xABCD to SRAM word 1 with sel = 01 (cycles 0-1), then a write of 0xABCD to bridge word 4 with
+   sel = 11 held on [2, 5] (R = 2: granules at 2 and 3, register 0's w_stb at cycle 4 with w_data 0xBCD, ack at 5),
+   then back to back a read of word 4 held on [6, 9] (r_stb at 6, where register 0 presents 0xABC; ack at 9 with
+   dat_r = 0x0ABC although the register presents 0x123 in cycle 7: one snapshot), then an idle cycle.
+   Every premise of C01_wb_sram_transfer (t0 = 0) and of C01_wb_bridge_transfer / _strobes (t0 = 2 and t0 = 6)
+   holds, and the run shows what the theorems say. ---- *)
+Definition ex_rq (we : bool) (a sel d : Z) : WbDecoder.breq :=
+  {| WbDecoder.cyc := true; WbDecoder.stb := true; WbDecoder.we := we; WbDecoder.adr := a;
+     WbDecoder.dat_w := d; WbDecoder.sel := sel; WbDecoder.lock := false; WbDecoder.cti := 0; WbDecoder.bte := 0 |}.
+Definition ex_idle : WbDecoder.breq :=
+  {| WbDecoder.cyc := false; WbDecoder.stb := false; WbDecoder.we := false; WbDecoder.adr := 0;
+     WbDecoder.dat_w := 0; WbDecoder.sel := 0; WbDecoder.lock := false; WbDecoder.cti := 0; WbDecoder.bte := 0 |}.
+Definition ex_t1 : wtrace := [(ex_rq true 1 1 43981, [0; 0]); (ex_rq true 1 1 43981, [0; 0])].
+Definition ex_t2 : wtrace := held (ex_rq true 4 3 43981) [[0; 0]; [0; 0]; [0; 0]; [0; 0]].
+Definition ex_t3 : wtrace := held (ex_rq false 4 3 0) [[2748; 0]; [291; 0]; [0; 0]; [0; 0]].
+Definition ex_show (o : wobs) :=
+  (wo_ack o, wo_dat_r o, map (fun lo => (lo_id lo, lo_rstb lo, lo_wstb lo, lo_wdata lo)) (wo_leaves o), wo_srams o).
+
+Example C01_wb_rung3_nonvacuous :
+  exists h, wbroot_hw ex_wb = Ok h /\ wbhw_wf h /\
+  (exists g rows0 s0,
+     nth_error (wh_subs h) 0 = Some (HSram 1000 g rows0) /\ nth_error (WbDecoder.c_subs (wh_cfg h)) 0 = Some s0 /\
+     WbDecoder.selected (wh_cfg h) 1 = Some 0%nat /\
+     Forall ack_low (wb_after h (map winit (wh_subs h)) [])) /\
+  (exists bc ch s1,
+     nth_error (wh_subs h) 1 = Some (HBridge bc ch) /\ nth_error (WbDecoder.c_subs (wh_cfg h)) 1 = Some s1 /\
+     Proofs.WbCsrBridge.wf bc /\ Proofs.WbCsrBridge.nratio bc = 2%nat /\
+     WbDecoder.selected (wh_cfg h) 4 = Some 1%nat /\
+     csr_hw ex_mux0 = Ok ch /\ WbCsrBridge.c_caw bc = csr_aw ex_mux0 /\
+     Forall ack_low (wb_after h (map winit (wh_subs h)) ex_t1) /\
+     (forall sk, nth_error (wb_after h (map winit (wh_subs h)) ex_t1) 1 = Some sk -> sub_idle sk) /\
+     Forall ack_low (wb_after h (map winit (wh_subs h)) (ex_t1 ++ ex_t2)) /\
+     (forall sk, nth_error (wb_after h (map winit (wh_subs h)) (ex_t1 ++ ex_t2)) 1 = Some sk -> sub_idle sk) /\
+     (* the CSR bus below the bridge during the write: (addr, r_stb, w_stb, w_data) *)
+     map (fun x : CsrDecoder.bus * list Z =>
+            (CsrDecoder.addr (fst x), CsrDecoder.r_stb (fst x), CsrDecoder.w_stb (fst x), CsrDecoder.w_data (fst x)))
+         (br_ctr h 1 bc ch s1 (ex_t1 ++ ex_t2)) =
+       [(2, false, false, 0); (2, false, false, 0);
+        (0, false, true, 205); (1, false, true, 171); (0, false, false, 0); (0, false, false, 0)]) /\
+  map ex_show (wb_run h (map winit (wh_subs h)) (ex_t1 ++ ex_t2 ++ ex_t3 ++ [(ex_idle, [0; 0])])) =
+    [(false, 0, [(0, false, false, 0); (1, false, false, 0)], [(1000, true, [4660; 22136])]);
+     (true, 0, [(0, false, false, 0); (1, false, false, 0)], [(1000, true, [4660; 22221])]);
+     (false, 0, [(0, false, false, 0); (1, false, false, 0)], [(1000, false, [4660; 22221])]);
+     (false, 0, [(0, false, false, 205); (1, false, false, 0)], [(1000, false, [4660; 22221])]);
+     (false, 0, [(0, false, true, 3021); (1, false, false, 171)], [(1000, false, [4660; 22221])]);
+     (true, 0, [(0, false, false, 3021); (1, false, false, 171)], [(1000, false, [4660; 22221])]);
+     (false, 0, [(0, true, false, 3021); (1, false, false, 171)], [(1000, false, [4660; 22221])]);
+     (false, 0, [(0, false, false, 3021); (1, false, false, 171)], [(1000, false, [4660; 22221])]);
+     (false, 188, [(0, false, false, 3021); (1, false, false, 171)], [(1000, false, [4660; 22221])]);
+     (true, 2748, [(0, false, false, 3021); (1, false, false, 171)], [(1000, false, [4660; 22221])]);
+     (false, 4660, [(0, false, false, 3021); (1, false, false, 171)], [(1000, false, [4660; 22221])])].
+Proof.
+  destruct (wbroot_hw ex_wb) as [h|] eqn:Eh; [|vm_compute in Eh; discriminate].
+  exists h. split; [reflexivity|].
+  split; [exact (C01_wb_hw_wellformed ex_wb h (proj1 C01_nonvacuous_wb) Eh)|].
+  vm_compute in Eh. injection Eh as <-.
+  split.
+  { eexists _, _, _. split; [reflexivity|]. split; [reflexivity|]. split; [vm_compute; reflexivity|].
+    vm_compute. repeat constructor. }
+  split.
+  { eexists _, _, _. split; [reflexivity|]. split; [reflexivity|].
+    split; [unfold Proofs.WbCsrBridge.wf; cbn; lia|]. split; [vm_compute; reflexivity|].
+    split; [vm_compute; reflexivity|]. split; [vm_compute; reflexivity|]. split; [reflexivity|].
+    split; [vm_compute; repeat constructor|].
+    split; [intros sk Hn; vm_compute in Hn; injection Hn as <-; split; reflexivity|].
+    split; [vm_compute; repeat constructor|].
+    split; [intros sk Hn; vm_compute in Hn; injection Hn as <-; split; reflexivity|].
+    vm_compute. reflexivity. }
+  vm_compute. reflexivity.
+Qed.
+
+(* ... and the right-hand side of C01_wb_bridge_read_atomic for that read (register 0, gf = 0, snapshot 0xABC of
+   cycle 6): lanes 0 and 1 of dat_r = 0x0ABC in the acknowledge cycle 9 are chunks 0 and 1 of 0xABC *)
+Example C01_wb_rung3_read_rhs :
+  map (fun g => WbCsrBridge.lane {| WbCsrBridge.c_r := 1; WbCsrBridge.c_caw := 2; WbCsrBridge.c_g := 8 |} g 2748) [0; 1] =
+  map (fun g => trunc 8 (Mux.word 8 12 (g - 0) (trunc 12 (nth 0 [2748; 0] 0)))) [0; 1].
+Proof. vm_compute. reflexivity. Qed.
+
+(* ... and of C01_wb_bridge_write_atomic for the write (register 0: gf = 0, ge = 2, 12 bits): w_data 0xBCD in cycle 4 *)
+Example C01_wb_rung3_write_rhs :
+  assemble 8 12 (fun j => trunc 8 (WbCsrBridge.lane {| WbCsrBridge.c_r := 1; WbCsrBridge.c_caw := 2; WbCsrBridge.c_g := 8 |}
+                                                    (0 + j) 43981)) 2 = 3021.
+Proof. vm_compute. reflexivity. Qed.
